@@ -498,6 +498,9 @@ fn check(prop: &str, tier: Tier) -> i32 {
     let t0 = Instant::now();
     let seed = seed_from_env();
     println!("VERIF_SEED={} property={} tier={}", seed, prop, tier.name());
+    if prop == "C20" {
+        return crate::configs::check(prop, tier == Tier::Thorough, seed);
+    }
     crate::subjects::catalogue();
     let scenarios = scn::for_property(prop);
     if scenarios.is_empty() {
@@ -692,6 +695,9 @@ fn replay(file: &str) -> i32 {
             return 2;
         },
     };
+    if txt.contains("\"scenario\": \"configs\"") {
+        return crate::configs::replay(&txt, file);
+    }
     let rep: Replay = match serde_json::from_str(&txt) {
         Ok(r) => r,
         Err(e) => {
